@@ -126,7 +126,9 @@ impl super::Connector for SocksConnector {
         };
         req.write_to(&mut server, PasswordAuth::optional()).await?;
         let resp = SocksResponse::read_from(&mut server).await?;
-        if resp.cmd != SOCKS_REPLY_OK {
+        // a SOCKS4 server reports success as 90, a SOCKS5 server as 0
+        let granted = if self.version == 4 { 90 } else { SOCKS_REPLY_OK };
+        if resp.cmd != granted {
             bail!("upstream server failure: {:?}", resp.cmd);
         }
         ctx.write()
